@@ -287,7 +287,7 @@ private theorem removeCall_nodup (c : Nat) (p : List Entry) (h : (p.map Entry.ca
 private theorem mem_eraseIdx {α} (l : List α) (i : Nat) (x : α) (h : x ∈ l.eraseIdx i) : x ∈ l :=
   List.mem_of_mem_eraseIdx h
 
-private theorem step_next_mono (k : KeyKind) (s s' : St) (e : Ev) (h : step k s e = some s') : s.next ≤ s'.next := by
+private theorem step_next_mono (k : KeyKind) (s s' : St) (e : Ev) (h : step k true s e = some s') : s.next ≤ s'.next := by
   cases e <;> simp only [step] at h
   case issue =>
     split at h
@@ -295,6 +295,7 @@ private theorem step_next_mono (k : KeyKind) (s s' : St) (e : Ev) (h : step k s 
     · split at h
       · simp at h
       · have := Option.some.inj h; subst this; simp
+  case register c => simp at h
   case serverAnswer c =>
     split at h
     · have := Option.some.inj h; subst this; simp
@@ -325,7 +326,7 @@ private theorem step_next_mono (k : KeyKind) (s s' : St) (e : Ev) (h : step k s 
     · simp at h
     · have := Option.some.inj h; subst this; simp
 
-private theorem run_next_mono (k : KeyKind) (evs : List Ev) : ∀ (s s' : St), run k s evs = some s' → s.next ≤ s'.next := by
+private theorem run_next_mono (k : KeyKind) (evs : List Ev) : ∀ (s s' : St), run k true s evs = some s' → s.next ≤ s'.next := by
   induction evs with
   | nil => intro s s' h; simp [run] at h; subst h; exact Nat.le_refl _
   | cons e es ih =>
@@ -375,9 +376,10 @@ private theorem inv_fail (k : KeyKind) (s : St) (c : Nat) (e : Entry) (hi : Inv 
     · simp at hx
 
 private theorem inv_step (k : KeyKind) (B : Nat) (hs : KeySound k B) (s s' : St) (e : Ev) (he : e.honest = true)
-    (hi : Inv k s) (hb : s'.next ≤ B) (h : step k s e = some s') : Inv k s' := by
+    (hi : Inv k s) (hb : s'.next ≤ B) (h : step k true s e = some s') : Inv k s' := by
   cases e with
   | inject f => simp [Ev.honest] at he
+  | register c => simp [step] at h
   | issue =>
     simp only [step] at h
     split at h
@@ -600,7 +602,7 @@ private theorem inv_step (k : KeyKind) (B : Nat) (hs : KeySound k B) (s s' : St)
             omega
 
 private theorem inv_run (k : KeyKind) (B : Nat) (hs : KeySound k B) (evs : List Ev) (hh : ∀ e ∈ evs, e.honest = true) :
-    ∀ (s s' : St), Inv k s → run k s evs = some s' → s'.next ≤ B → Inv k s' := by
+    ∀ (s s' : St), Inv k s → run k true s evs = some s' → s'.next ≤ B → Inv k s' := by
   induction evs with
   | nil => intro s s' hi h _; simp [run] at h; subst h; exact hi
   | cons e es ih =>
@@ -632,7 +634,7 @@ private theorem keyInj_of_good (k : KeyKind) (hk : goodKind k) : KeyInj k := by
     different table keys (the counter never repeats, decimal rendering is injective), so a map insert never
     overwrites another call's channel. -/
 theorem C01_ids_unique (k : KeyKind) (hk : goodKind k) (start : Nat) (evs : List Ev) (hh : ∀ e ∈ evs, e.honest = true)
-    (s : St) (hr : run k (init start) evs = some s) (hb : s.next ≤ 2 ^ 53) :
+    (s : St) (hr : run k true (init start) evs = some s) (hb : s.next ≤ 2 ^ 53) :
     (s.pending.map Entry.call).Nodup ∧
     ∀ e1 ∈ s.pending, ∀ e2 ∈ s.pending, e1.key = e2.key → e1.call = e2.call := by
   have hi := inv_run k _ (keySound_of_good k hk) evs hh _ s (inv_init k start) hr hb
@@ -647,7 +649,7 @@ theorem C01_ids_unique (k : KeyKind) (hk : goodKind k) (start : Nat) (evs : List
     delay), any interleaving of deliveries, wake-ups, timeouts, cancellations and a close: every completed call
     either carries an error or the body computed from its own request. No call ever receives another call's answer. -/
 theorem C01_own_answer (k : KeyKind) (hk : goodKind k) (start : Nat) (evs : List Ev) (hh : ∀ e ∈ evs, e.honest = true)
-    (s : St) (hr : run k (init start) evs = some s) (hb : s.next ≤ 2 ^ 53) :
+    (s : St) (hr : run k true (init start) evs = some s) (hb : s.next ≤ 2 ^ 53) :
     ∀ c o, (c, o) ∈ s.done → o = .answer c ∨ o = .error := by
   have hi := inv_run k _ (keySound_of_good k hk) evs hh _ s (inv_init k start) hr hb
   intro c o hm
@@ -657,7 +659,7 @@ theorem C01_own_answer (k : KeyKind) (hk : goodKind k) (start : Nat) (evs : List
 
 /-- **At most once**: no call completes twice (no duplicate outcome), and the handler runs at most once per request. -/
 theorem C01_at_most_once (k : KeyKind) (hk : goodKind k) (start : Nat) (evs : List Ev) (hh : ∀ e ∈ evs, e.honest = true)
-    (s : St) (hr : run k (init start) evs = some s) (hb : s.next ≤ 2 ^ 53) :
+    (s : St) (hr : run k true (init start) evs = some s) (hb : s.next ≤ 2 ^ 53) :
     (s.done.map Prod.fst).Nodup ∧ s.answered.Nodup ∧ (∀ e ∈ s.pending, e.call ∉ s.done.map Prod.fst) := by
   have hi := inv_run k _ (keySound_of_good k hk) evs hh _ s (inv_init k start) hr hb
   exact ⟨hi.doneNodup, hi.ansNodup, hi.disj⟩
@@ -700,11 +702,11 @@ private theorem fill_hit (key : Key) (b c : Nat) (p : List Entry) (e : Entry) (h
     and its answer is the i-th frame in flight and the key round trip holds for `c`, then delivering that frame fills
     `c`'s channel and `c`'s wake-up completes the call with its own answer. -/
 theorem C01_delivered_if_connected (k : KeyKind) (hk : goodKind k) (start : Nat) (evs : List Ev) (hh : ∀ e ∈ evs, e.honest = true)
-    (s : St) (hr : run k (init start) evs = some s) (hb : s.next ≤ 2 ^ 53)
+    (s : St) (hr : run k true (init start) evs = some s) (hb : s.next ≤ 2 ^ 53)
     (c : Nat) (e : Entry) (he : e ∈ s.pending) (hc : e.call = c) (hsl : e.slot = none) (ho : s.open_ = true)
     (i : Nat) (hf : s.wire[i]? = some ⟨wireOf c, c⟩)
     (hrt : keyOfWire k (wireOf c) = keyOfReq k (.int (Int.ofNat c))) :
-    ∃ s1 s2, step k s (.deliver i) = some s1 ∧ step k s1 (.complete c) = some s2 ∧ (c, Outcome.answer c) ∈ s2.done := by
+    ∃ s1 s2, step k true s (.deliver i) = some s1 ∧ step k true s1 (.complete c) = some s2 ∧ (c, Outcome.answer c) ∈ s2.done := by
   have hi := inv_run k _ (keySound_of_good k hk) evs hh _ s (inv_init k start) hr hb
   have hkey : keyOfReq k (.int (Int.ofNat c)) = some e.key := by rw [← hc]; exact (hi.pend e he).2
   have huniq : ∀ e2 ∈ s.pending, e2.key = e.key → e2.call = c := by
@@ -725,18 +727,32 @@ theorem C01_delivered_if_connected (k : KeyKind) (hk : goodKind k) (start : Nat)
     still waiting with an empty channel and nothing is in flight: it can only end by timeout or cancellation although
     the connection is up. -/
 theorem C01_lost_answer_witness :
-    ∃ s, run .sprintfV (init 999999) [.issue, .serverAnswer 1000000, .deliver 0] = some s ∧
+    ∃ s, run .sprintfV true (init 999999) [.issue, .serverAnswer 1000000, .deliver 0] = some s ∧
       s.wire = [] ∧ s.open_ = true ∧ s.done = [] ∧
       s.pending = [⟨.txt t!"1000000", 1000000, none⟩] := by
   refine ⟨_, rfl, ?_⟩; decide
 
 /-- the same history on today's tables (`requestIDKey`, and stdio's `int64`) completes the call. -/
 theorem C01_1e6_ok :
-    (∃ s, run .idKey (init 999999) [.issue, .serverAnswer 1000000, .deliver 0, .complete 1000000] = some s ∧
+    (∃ s, run .idKey true (init 999999) [.issue, .serverAnswer 1000000, .deliver 0, .complete 1000000] = some s ∧
       s.done = [(1000000, .answer 1000000)] ∧ s.pending = []) ∧
-    (∃ s, run .int64 (init 999999) [.issue, .serverAnswer 1000000, .deliver 0, .complete 1000000] = some s ∧
+    (∃ s, run .int64 true (init 999999) [.issue, .serverAnswer 1000000, .deliver 0, .complete 1000000] = some s ∧
       s.done = [(1000000, .answer 1000000)] ∧ s.pending = []) := by
   refine ⟨⟨_, rfl, ?_⟩, ⟨_, rfl, ?_⟩⟩ <;> decide
+
+/-- **Witness for the region "insert after send"** (a tree in which the issuing function puts the request on the wire before
+    it registers its channel — all the schedule theorems above are about `run k true`, the region in which the insert comes
+    first, a regenerated and decided fact: `C01_fact_insert_before_send`): the request goes out, the server answers, the reader
+    dispatches the answer — no entry yet, the frame is dropped — and only then the caller registers: it waits with an empty
+    channel, nothing is in flight, the connection is up. With the insert first the same answer completes the call. -/
+theorem C01_late_insert_witness :
+    (∃ s, run .int64 false (init 0) [.issue, .serverAnswer 1, .deliver 0, .register 1] = some s ∧
+      s.wire = [] ∧ s.open_ = true ∧ s.done = [] ∧ s.pending = [⟨.num 1, 1, none⟩]) ∧
+    (∃ s, run .idKey false (init 0) [.issue, .serverAnswer 1, .deliver 0, .register 1] = some s ∧
+      s.wire = [] ∧ s.open_ = true ∧ s.done = [] ∧ s.pending = [⟨.txt t!"n:1", 1, none⟩]) ∧
+    (∃ s, run .int64 true (init 0) [.issue, .serverAnswer 1, .deliver 0, .complete 1] = some s ∧
+      s.done = [(1, .answer 1)] ∧ s.pending = []) := by
+  refine ⟨⟨_, rfl, ?_⟩, ⟨_, rfl, ?_⟩, ⟨_, rfl, ?_⟩⟩ <;> decide
 
 /-! ## Streamable HTTP (answer on the POST's own response) -/
 
@@ -788,14 +804,22 @@ theorem C01_post_json_unchecked (f : Frame) : readPostJson f = .answer f.body :=
 
 /-- The five pending tables are keyed as modelled: `requestIDKey` on both sides of the legacy SSE client table and of the
     Streamable server's table, the stdio client's `int64` table, the two `uint64` server tables; every insert has its
-    deferred delete. A changed key expression changes `kind`. -/
+    deferred delete; the functions that read each table are exactly the modelled lookup functions. A changed key expression
+    changes `kind`, a new function reading a table changes `readSites`. -/
 theorem C01_fact_tables :
-    Mcp.Gen.pdTables.map (fun t => (t.name, t.insertKind, t.lookupKinds, t.deferredDelete)) =
-      [ (t!"sse_client.responses", t!"idKey", [t!"idKey"], true),
-        (t!"sse_server.responses", t!"uint64OfInt64", [t!"parseRequestID", t!"parseRequestID"], true),
-        (t!"stdio_client.pendingRequests", t!"int64Assert", [t!"int64OfFloat64", t!"int64OfFloat64"], true),
-        (t!"stdio_server.responses", t!"uint64OfInt64", [t!"parseRequestID"], true),
-        (t!"streamable_server.pendingRequests", t!"idKey", [t!"idKey"], true) ] := by decide
+    Mcp.Gen.pdTables.map (fun t => (t.name, t.insertKind, t.lookupKinds, t.deferredDelete, t.readSites)) =
+      [ (t!"sse_client.responses", t!"idKey", [t!"idKey"], true, [t!"sseClientTransport.handleResponse"]),
+        (t!"sse_server.responses", t!"uint64OfInt64", [t!"parseRequestID", t!"parseRequestID"], true,
+          [t!"SSEServer.handleResponseMessage", t!"SSEServer.handleRootsListResponse"]),
+        (t!"stdio_client.pendingRequests", t!"int64Assert", [t!"int64OfFloat64", t!"int64OfFloat64"], true,
+          [t!"stdioClientTransport.handleErrorResponse", t!"stdioClientTransport.handleResponse"]),
+        (t!"stdio_server.responses", t!"uint64OfInt64", [t!"parseRequestID"], true, [t!"stdioServerInternal.HandleResponse"]),
+        (t!"streamable_server.pendingRequests", t!"idKey", [t!"idKey"], true, [t!"responseManager.DeliverResponse"]) ] := by decide
+
+/-- In every issuing function the pending entry is inserted before the request is put on the wire (client tables: before
+    `encoder.Encode` / the POST; server tables: before the frame is queued or written): an answer cannot be dispatched
+    before its entry exists. This is the region `ins = true` the schedule theorems are about. -/
+theorem C01_fact_insert_before_send : Mcp.Gen.pdTables.all (·.insertBeforeSend) = true := by decide
 
 /-- The Streamable client's POST-SSE matcher compares `requestIDKey` renderings of both ids. -/
 theorem C01_fact_post_sse_matcher : Mcp.Gen.pdPostSseMatcher = (t!"idKey", t!"idKey") := by decide
@@ -831,18 +855,18 @@ theorem C01_fact_drop_sites :
 /-! ## non-vacuity -/
 
 -- three calls answered in reverse order, one duplicate wake-up attempt refused, one timeout: every call has its own answer
-example : ∃ s, run .idKey (init 0) [.issue, .issue, .issue, .serverAnswer 3, .serverAnswer 1, .deliver 0, .deliver 0,
+example : ∃ s, run .idKey true (init 0) [.issue, .issue, .issue, .serverAnswer 3, .serverAnswer 1, .deliver 0, .deliver 0,
       .complete 1, .timeout 2, .complete 3, .serverAnswer 2, .deliver 0] = some s ∧
     s.done = [(1, .answer 1), (2, .error), (3, .answer 3)] ∧ s.pending = [] ∧ s.wire = [] := by
   refine ⟨_, rfl, ?_⟩; decide
 
 -- a dishonest duplicate frame for call 1 with another body finds the channel full and is dropped
-example : ∃ s, run .int64 (init 0) [.issue, .serverAnswer 1, .deliver 0, .inject ⟨wireOf 1, 77⟩, .deliver 0, .complete 1] = some s ∧
+example : ∃ s, run .int64 true (init 0) [.issue, .serverAnswer 1, .deliver 0, .inject ⟨wireOf 1, 77⟩, .deliver 0, .complete 1] = some s ∧
     s.done = [(1, .answer 1)] := by
   refine ⟨_, rfl, ?_⟩; decide
 
 -- the hypotheses of `C01_delivered_if_connected` are satisfiable
-example : ∃ s, run .idKey (init 41) [.issue, .serverAnswer 42] = some s ∧ s.open_ = true ∧
+example : ∃ s, run .idKey true (init 41) [.issue, .serverAnswer 42] = some s ∧ s.open_ = true ∧
     s.wire[0]? = some ⟨wireOf 42, 42⟩ ∧ s.pending = [⟨.txt t!"n:42", 42, none⟩] := by
   refine ⟨_, rfl, ?_⟩; decide
 
